@@ -256,6 +256,11 @@ class Tr:
             star = [k.value for k in c.keywords if k.arg is None]
             gets_path = bool(args) and self.is_path(args[0], bind)
             allargs = args + list(kws.values())
+            for a in allargs:
+                for n in ast.walk(a):
+                    dn = dotted(n) if isinstance(n, (ast.Name, ast.Attribute)) else None
+                    if dn and bind.get(dn, (None,))[0] == "dpath":
+                        raise Outside("call %s(...) receives %s, a re-spelled (abspath/expanduser/...) filename" % (name, dn))
             any_path = any(self.is_path(a, bind) for a in allargs)
             for a in allargs:
                 if not self.is_path(a, bind) and self.mentions_path(a, bind) \
@@ -416,6 +421,14 @@ class Tr:
                     return ("Do", ("DeferOpen", kind))
                 if d and val is not None and self.is_path(val, bind) and isinstance(t, (ast.Name, ast.Attribute)):
                     bind[d] = ("path",)
+                    return ("Skip",)
+                if d and val is not None and self.mentions_path(val, bind) and isinstance(t, (ast.Name, ast.Attribute)) \
+                        and any(isinstance(n, ast.Call) and dotted(n.func) in (
+                            "os.path.abspath", "os.path.expanduser", "os.path.normpath", "os.path.realpath",
+                            "os.path.join", "os.path.expandvars") for n in ast.walk(val)):
+                    # another spelling of the filename: the effect language has ONE path, so a constructor that tests
+                    # one spelling and opens another is outside it
+                    bind[d] = ("dpath",)
                     return ("Skip",)
                 if isinstance(t, ast.Name) and isinstance(val, ast.Dict) and all(
                         isinstance(kk, ast.Constant) for kk in val.keys):
@@ -1150,6 +1163,27 @@ def build_cases(ctx):
                             continue
                         cases.append({"kind": "write", "ext": ext, "entry": entry, "pre": pre, "pre_at": 0,
                                       "frames": fr, "force": force, "arg": arg})
+    # path spellings that differ from their resolved form: ~/x (HOME points into the scratch directory), ./x,
+    # sub/../x, dir/./x, a symlinked directory, a symlink to the target itself.  The runner resolves the spelling
+    # itself; the statuses reported are those of the RESOLVED paths
+    for ext in PROPERTY_EXTS:
+        for entry in ("save", "open", "open_only", "class"):
+            for arg in ("tilde", "dot", "dotdot", "dirdot", "symdir", "symfile"):
+                for pre in ((3,) if quick else (1, 3, 4)):
+                    if arg == "symfile" and pre == 0:
+                        continue
+                    for force in (False, True):
+                        fr = 1 if (entry != "save" or ext in SINGLE_FRAME) else 2
+                        cases.append({"kind": "write", "ext": ext, "entry": entry, "pre": pre, "pre_at": 0,
+                                      "frames": fr, "force": force, "arg": arg})
+                if arg != "symfile" and (not quick or entry == "save"):
+                    cases.append({"kind": "write", "ext": ext, "entry": entry, "pre": 0, "pre_at": 0,
+                                  "frames": 1, "force": False, "arg": arg})
+        if ext in SINGLE_FRAME:
+            for arg in ("tilde", "dotdot", "symdir"):
+                for force in (False, True):
+                    cases.append({"kind": "write", "ext": ext, "entry": "save", "pre": 3, "pre_at": 2, "frames": 3,
+                                  "force": force, "arg": arg})
     reads = [{"kind": "read", "ext": ext, "op": op} for ext in PROPERTY_EXTS for op in READ_OPS]
     if not quick:
         # a random extra stream over the whole grid (repeats catch order/time dependent behaviour)
@@ -1197,7 +1231,7 @@ def run_cases(ctx, cases):
             if st[c["pre_at"]] != "Unchanged":
                 ctx.fail("%s: force_overwrite=False modified an existing path" % c["ext"], c, observed=o,
                          expected="pre-existing path byte-identical", tags=dict(tags, kind="modified"))
-            elif is_target(c, c["pre_at"]) and o["raised"] is None:
+            elif is_target(c, c["pre_at"]) and o["raised"] is None and c.get("arg") != "tilde":
                 ctx.fail("%s: force_overwrite=False at an existing target did not raise" % c["ext"], c,
                          observed=o, expected="an error", tags=dict(tags, kind="no_error"))
         if c["force"]:
@@ -1211,7 +1245,7 @@ def run_cases(ctx, cases):
                              expected="only targets change", tags=dict(tags, kind="frame"))
         if c["pre"] == 0 or c["force"]:
             # a fresh / forced write that did not raise must have produced the new content at every target
-            if o["raised"] is None and c["entry"] != "open_only":
+            if o["raised"] is None and c["entry"] != "open_only" and c.get("arg") != "tilde":
                 for i, s in enumerate(st):
                     if is_target(c, i) and s not in ("NewExact", "NewDir"):
                         ctx.fail("%s: write returned normally but the target does not hold exactly the new frames"
@@ -1238,7 +1272,12 @@ def run_cases(ctx, cases):
         property; the effect programs do not model argument types, so such a case is not compared with them"""
         if (c["ext"], c.get("arg")) in NOT_MODELLED_ARGS:
             return True
-        return c.get("arg", "str") in ("path", "pathlike", "bytes", "slash") and o["raised"] is not None \
+        if c.get("arg") == "tilde":
+            return True     # mdtraj does not expand "~": the spelling names another (non-existing) path; only the
+                            # oracle applies: the file the shell would mean must not be touched without force
+        if c.get("arg") == "symfile" and c["force"]:
+            return True     # unlink+create replaces the link, open('w') writes through it: both replace fully
+        return c.get("arg", "str") in ("path", "pathlike", "bytes", "slash", "tilde") and o["raised"] is not None \
             and all(x == "Unchanged" for x in o["status"]) and not o["stray"]
 
     n_rej = 0
